@@ -7,9 +7,6 @@ import (
 	"sort"
 	"strings"
 
-	"ariga.io/atlas/sql/migrate"
-	"ariga.io/atlas/sql/mysql"
-	"ariga.io/atlas/sql/postgres"
 	"ariga.io/atlas/sql/schema"
 )
 
@@ -35,9 +32,9 @@ func c04Plan(dialect string, changes []schema.Change) (stmts []string, err error
 			err = fmt.Errorf("panic: %v", p)
 		}
 	}()
-	var pl migrate.PlanApplier = mysql.DefaultPlan
-	if dialect == "postgres" {
-		pl = postgres.DefaultPlan
+	pl := c04Planner(dialect)
+	if pl == nil {
+		return nil, fmt.Errorf("no planner for %s", dialect)
 	}
 	plan, err := pl.PlanChanges(context.Background(), "p", changes)
 	if err != nil {
@@ -49,8 +46,104 @@ func c04Plan(dialect string, changes []schema.Change) (stmts []string, err error
 	return stmts, nil
 }
 
+// c04Cat: the reference catalogue the planned commands are replayed on: tables, the foreign keys they hold, and
+// which tables still hold the unrelated column x.
+type c04FK struct{ from, sym, ref string }
+
+type c04Cat struct {
+	tables map[string]bool
+	extra  map[string]bool
+	fks    map[string]c04FK // by "table/symbol"
+}
+
+func newC04Cat() *c04Cat {
+	return &c04Cat{tables: map[string]bool{}, extra: map[string]bool{}, fks: map[string]c04FK{}}
+}
+
+// String renders the catalogue canonically (tables and foreign keys).
+func (cat *c04Cat) String() string {
+	var out []string
+	for t := range cat.tables {
+		out = append(out, "table "+t)
+	}
+	for _, f := range cat.fks {
+		out = append(out, fmt.Sprintf("fk %s.%s->%s", f.from, f.sym, f.ref))
+	}
+	sort.Strings(out)
+	return strings.Join(out, "; ")
+}
+
+// apply replays statement k; a non-empty signature means the database would refuse it.
+func (cat *c04Cat) apply(k int, st string, stmts []string) (string, string) {
+	tables, extra, fks := cat.tables, cat.extra, cat.fks
+	st = strings.TrimSpace(st)
+	switch {
+	case reC04Create.MatchString(st):
+		t := reC04Create.FindStringSubmatch(st)[1]
+		if tables[t] {
+			return "stmt-create-existing-table", fmt.Sprintf("statement %d creates %s, which exists: %s", k, t, trunc(st, 200))
+		}
+		tables[t] = true
+		for _, m := range reC04FK.FindAllStringSubmatch(st, -1) {
+			if m[2] != t && !tables[m[2]] {
+				return "stmt-fk-before-referenced-table", fmt.Sprintf("statement %d creates %s with foreign key %s to %s, which does not exist yet: %s", k, t, m[1], m[2], trunc(st, 300))
+			}
+			fks[t+"/"+m[1]] = c04FK{t, m[1], m[2]}
+		}
+	case reC04Drop.MatchString(st):
+		t := reC04Drop.FindStringSubmatch(st)[1]
+		if !tables[t] {
+			return "stmt-drop-of-missing-table", fmt.Sprintf("statement %d drops %s, which does not exist", k, t)
+		}
+		var refs []string
+		for _, f := range fks {
+			if f.ref == t && f.from != t && tables[f.from] {
+				refs = append(refs, f.from+"."+f.sym)
+			}
+		}
+		if len(refs) > 0 {
+			sort.Strings(refs)
+			return "stmt-table-dropped-while-referenced", fmt.Sprintf("statement %d drops %s while the foreign keys %v of existing tables still point at it; statements: %s", k, t, refs, trunc(strings.Join(stmts, "; "), 600))
+		}
+		delete(tables, t)
+		for key, f := range fks {
+			if f.from == t {
+				delete(fks, key)
+			}
+		}
+	case reC04Alter.MatchString(st):
+		m := reC04Alter.FindStringSubmatch(st)
+		t, body := m[1], m[2]
+		if !tables[t] {
+			return "stmt-modify-of-missing-table", fmt.Sprintf("statement %d alters %s, which does not exist: %s", k, t, trunc(st, 200))
+		}
+		for _, d := range reC04DropFK.FindAllStringSubmatch(body, -1) {
+			if _, ok := fks[t+"/"+d[1]]; !ok {
+				return "stmt-drop-of-missing-fk", fmt.Sprintf("statement %d drops foreign key %s of %s, which does not exist: %s", k, d[1], t, trunc(st, 200))
+			}
+			delete(fks, t+"/"+d[1])
+		}
+		for _, d := range reC04DropCol.FindAllStringSubmatch(body, -1) {
+			if d[1] == "x" {
+				delete(extra, t)
+			}
+		}
+		for _, a := range reC04FK.FindAllStringSubmatch(body, -1) {
+			if a[2] != t && !tables[a[2]] {
+				return "stmt-fk-before-referenced-table", fmt.Sprintf("statement %d adds foreign key %s of %s to %s, which does not exist (yet / any more): %s", k, a[1], t, a[2], trunc(st, 300))
+			}
+			if _, ok := fks[t+"/"+a[1]]; ok {
+				return "stmt-fk-added-twice", fmt.Sprintf("statement %d adds foreign key %s of %s, which exists: %s", k, a[1], t, trunc(st, 300))
+			}
+			fks[t+"/"+a[1]] = c04FK{t, a[1], a[2]}
+		}
+	}
+	return "", ""
+}
+
 // c04StmtMonitor replays stmts. roles/edges as in the case.
-func c04StmtMonitor(c *c04Case, stmts []string) (bool, string, string) {
+// catalogue: the reference catalogue before the plan, and the tables / foreign keys wanted after it.
+func (c *c04Case) catalogue() (cat *c04Cat, wantTables map[string]bool, wantFK map[string]c04FK) {
 	has := func(i, j int) bool {
 		for _, e := range c.Edges {
 			if e == i*c.N+j {
@@ -59,12 +152,10 @@ func c04StmtMonitor(c *c04Case, stmts []string) (bool, string, string) {
 		}
 		return false
 	}
-	type fk struct{ from, sym, ref string }
-	tables := map[string]bool{}
-	extra := map[string]bool{} // tables that still hold the unrelated column x
-	fks := map[string]fk{}     // by "table/symbol"
-	wantFK := map[string]fk{}
-	wantTables := map[string]bool{}
+	cat = newC04Cat()
+	tables, extra, fks := cat.tables, cat.extra, cat.fks
+	wantFK = map[string]c04FK{}
+	wantTables = map[string]bool{}
 	for i := 0; i < c.N; i++ {
 		if c.Role[i] != 0 {
 			tables[tname(i)] = true
@@ -78,7 +169,7 @@ func c04StmtMonitor(c *c04Case, stmts []string) (bool, string, string) {
 				continue
 			}
 			sym := fmt.Sprintf("fk_%d_%d", i, j)
-			f := fk{tname(i), sym, tname(j)}
+			f := c04FK{tname(i), sym, tname(j)}
 			ri, rj := c.Role[i], c.Role[j]
 			switch {
 			case ri == 0:
@@ -92,65 +183,15 @@ func c04StmtMonitor(c *c04Case, stmts []string) (bool, string, string) {
 			}
 		}
 	}
+	return cat, wantTables, wantFK
+}
+
+func c04StmtMonitor(c *c04Case, stmts []string) (bool, string, string) {
+	cat, wantTables, wantFK := c.catalogue()
+	tables, extra, fks := cat.tables, cat.extra, cat.fks
 	for k, st := range stmts {
-		st = strings.TrimSpace(st)
-		switch {
-		case reC04Create.MatchString(st):
-			t := reC04Create.FindStringSubmatch(st)[1]
-			if tables[t] {
-				return false, "stmt-create-existing-table", fmt.Sprintf("statement %d creates %s, which exists: %s", k, t, trunc(st, 200))
-			}
-			tables[t] = true
-			for _, m := range reC04FK.FindAllStringSubmatch(st, -1) {
-				if m[2] != t && !tables[m[2]] {
-					return false, "stmt-fk-before-referenced-table", fmt.Sprintf("statement %d creates %s with foreign key %s to %s, which does not exist yet: %s", k, t, m[1], m[2], trunc(st, 300))
-				}
-				fks[t+"/"+m[1]] = fk{t, m[1], m[2]}
-			}
-		case reC04Drop.MatchString(st):
-			t := reC04Drop.FindStringSubmatch(st)[1]
-			if !tables[t] {
-				return false, "stmt-drop-of-missing-table", fmt.Sprintf("statement %d drops %s, which does not exist", k, t)
-			}
-			var refs []string
-			for _, f := range fks {
-				if f.ref == t && f.from != t && tables[f.from] {
-					refs = append(refs, f.from+"."+f.sym)
-				}
-			}
-			if len(refs) > 0 {
-				sort.Strings(refs)
-				return false, "stmt-table-dropped-while-referenced", fmt.Sprintf("statement %d drops %s while the foreign keys %v of existing tables still point at it; statements: %s", k, t, refs, trunc(strings.Join(stmts, "; "), 600))
-			}
-			delete(tables, t)
-			for key, f := range fks {
-				if f.from == t {
-					delete(fks, key)
-				}
-			}
-		case reC04Alter.MatchString(st):
-			m := reC04Alter.FindStringSubmatch(st)
-			t, body := m[1], m[2]
-			if !tables[t] {
-				return false, "stmt-modify-of-missing-table", fmt.Sprintf("statement %d alters %s, which does not exist: %s", k, t, trunc(st, 200))
-			}
-			for _, d := range reC04DropFK.FindAllStringSubmatch(body, -1) {
-				if _, ok := fks[t+"/"+d[1]]; !ok {
-					return false, "stmt-drop-of-missing-fk", fmt.Sprintf("statement %d drops foreign key %s of %s, which does not exist: %s", k, d[1], t, trunc(st, 200))
-				}
-				delete(fks, t+"/"+d[1])
-			}
-			for _, d := range reC04DropCol.FindAllStringSubmatch(body, -1) {
-				if d[1] == "x" {
-					delete(extra, t)
-				}
-			}
-			for _, a := range reC04FK.FindAllStringSubmatch(body, -1) {
-				if a[2] != t && !tables[a[2]] {
-					return false, "stmt-fk-before-referenced-table", fmt.Sprintf("statement %d adds foreign key %s of %s to %s, which does not exist (yet / any more): %s", k, a[1], t, a[2], trunc(st, 300))
-				}
-				fks[t+"/"+a[1]] = fk{t, a[1], a[2]}
-			}
+		if sig, what := cat.apply(k, st, stmts); sig != "" {
+			return false, sig, what
 		}
 	}
 	// the final catalogue is the desired one
